@@ -21,10 +21,21 @@ RULE = ('A case is (profile of the 14, user capabilities, server capability list
         'real transport (SSH: subsystem granted; TLS: handshake done; Unix: accepted) that stays silent, drips a hello too slowly, or sends it '
         'inside the timeout; every entry point x every way of stating the timeout (keyword, positional, manager_params only, both, neither, '
         'timeout=None, ssh_config ConnectTimeout, ssh_config and keyword) x timeout below 1.3 s (judged on the wall clock) or 90-400 s (judged '
-        'on the argument of the hello wait, which is then cut short); the deadline is compared with HelloWait.hello_wait.')
+        'on the argument of the hello wait, which is then cut short); the deadline is compared with HelloWait.hello_wait. '
+        'Real-transport hello cases (kind realhello): the real manager.connect_ssh / connect_tls / connect_uds, or the transport API '
+        '(session = cls(device_handler); add/remove history on session.client_capabilities; session.connect; Manager), against an in-process '
+        'peer that sends a well-formed server <hello> of an exact size (record-size edges 4096/8192/12288/16384 +- a few octets, 400-16384, '
+        '16-64 kB; hundreds of YANG module capabilities) in one send (over TLS one record up to 16384 octets) or cut at generated offsets '
+        '(also inside the delimiter), then records the octets of the client hello and of one or two requests; histories: remove base:1.1, '
+        'remove then add again, add the other URN form, remove both forms, remove base:1.0, unrelated add/remove, random; nc_params additions. '
+        'Judged: connect succeeds, session id and ALL server capabilities are reported, the hello on the wire lists what the manager reports '
+        'and what the history left, later frames chunked iff the hello ON THE WIRE and the server hello advertise base:1.1; the frames are '
+        'compared with Negotiate.run on the client list sent.')
 ASSUMES = ['the transport delivers the server octets in order; threading.Event.wait(timeout) returns no later than the deadline plus scheduling latency',
            'a profile is one of the 14 modules of ncclient/devices; nc_params capabilities are strings']
-TRUSTED = ['tools/harness/hello_deadline.py: scripted SSH/TLS/Unix peers; the name Event of ncclient.transport.session is rebound to a recording subclass '
+TRUSTED = ['tools/harness/hello_real.py: scripted peer behind the real SSH/TLS/Unix transports (servers of hello_deadline.py); OpenSSL puts one '
+           'sendall() of at most 16384 octets into one TLS record',
+           'tools/harness/hello_deadline.py: scripted SSH/TLS/Unix peers; the name Event of ncclient.transport.session is rebound to a recording subclass '
            'that cuts waits above 2 s short (the deadline is then read off the argument of wait)',
            'modelled, not verified: lxml parsing/serialisation of the hello documents (trees are compared through an independent reader)',
            'tools/harness/fakesession.py in-memory transport and selector shim',
@@ -477,6 +488,32 @@ def run_deadline(ctx, corpus, rounds):
             if it != 'n/a' and it != mt:
                 ctx.disagree(case, mt, it, 'HelloWait.manager_timeout vs Manager._timeout', theorem='C05_manager_timeout')
 
+def run_real(ctx, corpus, rounds):
+    """large / segmented server hellos and client capability histories through the real transports"""
+    from harness import hello_real as HR
+    cases = list(corpus)
+    for _ in range(rounds):
+        cases += HR.gen_cases(ctx.rng, ctx.tier, DEFAULT_LIST)
+    res = HR.check_cases(cases)
+    calls = [HR.model_call(c, o) for c, o, _ in res]
+    idx = [i for i, c in enumerate(calls) if c is not None]
+    mouts = dict(zip(idx, ctx.model.batch([calls[i] for i in idx]))) if ctx.model and idx else {}
+    for i, (case, obs, probs) in enumerate(res):
+        ctx.count(case, nontrivial=True); ctx.traces += 1
+        sz = obs.get('hello_octets', 0)
+        ctx.hist('real_transport_api', case['transport'] + '/' + case['api'])
+        ctx.hist('real_hello_octets', '<=4096' if sz <= 4096 else '<=8192' if sz <= 8192 else '<=16384' if sz <= 16384 else '>16384')
+        ctx.hist('real_hello_sends', 'one' if obs.get('n_pieces') == 1 else 'several')
+        ctx.hist('real_history', 'none' if not case.get('edits') else ('touches base:1.1' if any(advertises_base(u, '1.1') for _, u in case['edits']) else 'other'))
+        ctx.hist('real_result', obs['result'] + (' (unconfirmed)' if obs.get('unconfirmed') else ''))
+        for what, exp, act in probs:
+            ctx.fail(case, what, sig=None, expected=exp, actual=act)
+        if i in mouts and not obs.get('unconfirmed'):
+            mo, io = HR.model_out(mouts[i]), HR.impl_out(case, obs)
+            if mo != io:
+                ctx.disagree(case, mo[:3] + [len(mo[3] or [])], io[:3] + [len(io[3])], 'Negotiate.run on the client list SENT vs the frames / report of the real transport',
+                             theorem='C05_first_frame/C05_iff/C05_reports')
+
 PLUMB_FUNS = ('connect_ssh', 'connect_tls', 'connect_uds')
 PLUMB_EXTRA = [[], ['urn:example:params:my-extension:1.0'], ['urn:example:a', 'urn:ietf:params:netconf:capability:interleave:1.0']]
 
@@ -539,7 +576,7 @@ def run(ctx):
                     ctx.fail(case, what, sig=None, expected=exp, actual=act)
     quick = ctx.tier == 'quick'
     # (0) corpus
-    sched_corpus, deadline_corpus = [], []
+    sched_corpus, deadline_corpus, real_corpus = [], [], []
     for p in sorted(glob.glob(os.path.join(paths.CORPUS, 'C05', '*.json'))):
         case = json.load(open(p))['case']
         if case.get('kind') == 'connect':
@@ -548,6 +585,10 @@ def run(ctx):
             sched_corpus.append(case)
         elif case.get('kind') == 'deadline':
             deadline_corpus.append(case)
+        elif case.get('kind') == 'realhello':
+            real_corpus.append(case)
+    # (0''') the success clause through the real transports: server hellos of every size / segmentation, client list histories
+    run_real(ctx, real_corpus, rounds=1 if quick else 4)
     # (0'') the timeout clause through the real entry points and transports: no hello within the timeout => connect fails then
     run_deadline(ctx, deadline_corpus, rounds=1 if quick else 5)
     # (0') the two-thread exchange under the deterministic scheduler, validated against NegotiateSched.fstep
@@ -638,6 +679,11 @@ def search(ctx, seeds):
         if probs:
             what, exp, act = probs[0]
             return dict(case=case, what=what, sig=None, expected=exp, actual=act)
+    from harness import hello_real as HR
+    for case, obs, probs in HR.check_cases([c for c in seeds if c.get('kind') == 'realhello'] + HR.gen_cases(rng, 'quick', DEFAULT_LIST)):
+        if probs:
+            what, exp, act = probs[0]
+            return dict(case=case, what=what, sig=None, expected=exp, actual=act)
     tries = [c for c in seeds if c.get('kind') == 'connect']
     for name in PROFILES:
         tries.append(dict(kind='connect', profile=name, extra=[], server_caps=[B10, B11], sid=1, order='server_first_blocked'))
@@ -669,6 +715,9 @@ def reproduce(finding):
     if case.get('kind') == 'deadline':
         from harness import hello_deadline as HD
         return bool(HD.check_cases([case])[0][2])
+    if case.get('kind') == 'realhello':
+        from harness import hello_real as HR
+        return bool(HR.check_cases([case])[0][2])
     obs = run_impl(case)
     return bool(oracle(case, obs)) and sig_of(case, obs) == finding.get('sig')
 
@@ -691,6 +740,22 @@ def replay(doc):
             print('model    : hello_wait, manager timeout (ms) =', HD.model_out(Model('C05').call(HD.model_call(case))))
         except Exception as e:
             print('model    : not available (%s)' % type(e).__name__)
+        for what, exp, act in probs:
+            print('FAILS    :', what); print('expected :', exp); print('actual   :', act)
+        if not probs: print('holds')
+        return not probs
+    if case.get('kind') == 'realhello':
+        from harness import hello_real as HR
+        case, obs, probs = HR.check_cases([case])[0]
+        first, rest = HR.split_wire(obs['wire'])
+        print('case     :', case)
+        print('server   : <hello> of %s; base URIs %r; session-id %s' % (HR.how_sent(case, obs), case['server_base'], case['sid']))
+        print('client   : %s, profile %s, nc_params capabilities %r, history on session.client_capabilities before connect: %r'
+              % ('manager.' + HR.FUN[case['transport']] if case['api'] == 'manager' else 'transport.' + HR.CLS[case['transport']] + ' + connect + Manager',
+                 case['profile'], case.get('extra', []), case.get('edits', [])))
+        print('observed : result=%s %r after %.2fs; session-id=%r; %s server capabilities reported; manager reports client capabilities %r'
+              % (obs['result'], obs.get('message'), obs['elapsed'], obs.get('sid'), None if obs.get('server_caps') is None else len(obs['server_caps']), obs.get('client_reported')))
+        print('wire     : hello lists %r; then %r' % (None if first is None else HR.hello_caps_of(first), rest[:80]))
         for what, exp, act in probs:
             print('FAILS    :', what); print('expected :', exp); print('actual   :', act)
         if not probs: print('holds')
